@@ -239,6 +239,13 @@ def garbage_elem(space, tag='garbage'):
     return NElem(space, NA(a, space.dt))
 
 
+_ELEM_DUNDERS = {}
+for _nm, _op in (('add', ast.Add), ('sub', ast.Sub), ('mul', ast.Mult),
+                 ('div', ast.Div), ('truediv', ast.Div)):
+    for _k in ('', 'r', 'i'):
+        _ELEM_DUNDERS['__%s%s__' % (_k, _nm)] = (_k, _op)
+
+
 class BoolElem(object):
     """A boolean-valued element (result of a comparison ufunc)."""
 
@@ -605,6 +612,25 @@ class SMHooks(NAHooks, OpHooks):
             return sp
         if name == 'copy':
             return Builtin('copy', lambda: self.copy(x))
+        if name in _ELEM_DUNDERS:
+            # the arithmetic dunders of LinearSpaceElement as bound methods
+            # (their agreement with the operators is C01-R3)
+            kind, op = _ELEM_DUNDERS[name]
+
+            def dunder(other):
+                if not (is_scalar(other) or isinstance(other, (NElem,
+                                                               NPElem))):
+                    return NotImplemented
+                if isinstance(other, (NElem, NPElem)) and not (
+                        other.space == sp):
+                    return NotImplemented
+                if kind == 'r':
+                    return I.binop(op, other, x)
+                if kind == 'i':
+                    self.write(I, x, self.ew(I, op, x, other))
+                    return x
+                return I.binop(op, x, other)
+            return Builtin(name, dunder)
         if name == 'assign':
             return Builtin('assign', lambda o: self.write(I, x, o))
         if name == 'set_zero':
